@@ -16,8 +16,10 @@ generator and Python's `random` seeded differently and consumed differently betw
     operation must be bit-identical;
   * a different seed must give different draws (>= 64 Bernoulli outcomes compared);
   * the parameter bytes before / after every read-only operation must be identical;
+  * no callback hook (evaluators, stoppers, loggers, savers, timers) changes a parameter: called directly as read-only
+    operations, and sandwiched between two parameter probes inside fit;
   * the foreign sources actually hit by qucumber code (torch RNG entry points, numpy.random, random, time,
-    os.environ — wrapped in this process, attributed by caller module) must be among the atoms the
+    os.environ, Path.home / cwd / expanduser — wrapped in this process, attributed by caller module) must be among the atoms the
     translator predicted for that operation (closure over the generated call graph).
 """
 import os, sys, json, time, hashlib, subprocess, fcntl, random as pyrandom
@@ -28,22 +30,35 @@ if __name__ == "__main__":
 import common
 import translate_effects as TE
 
-RULE = ("fixed cases first: 9 seed pairs (across 2**31, beyond 32 bits, negative, adjacent; one pair congruent mod 2**32 = known finding), "
-        "reseed-restarts-the-stream, and per state kind one history with fit(time=5.0), parameter entries poked to 75.0 / NaN, save, sample, "
-        "statistics, gradients, metrics; then random histories: state kind in {positive, complex, density} x nv 2..4 x nh 1..4 (x na 1..3), "
+RULE = ("fixed cases first (no time budget applies to them; the most discriminating at the very start): per state kind two histories -- "
+        "(1) fit(time=5.0) with an explicit Timer on which every constructor option this harness does not know (None / numeric default) is "
+        "switched on with the same number (likewise unknown options of fit), then sample / statistics / evaluate / save / gradients / metrics "
+        "/ rotations and the hooks of MetricEvaluator, ObservableEvaluator, EarlyStopping, CallbackList+Timer called as read-only operations, "
+        "on ordinary parameters, after an entry poked to 75.0 and after a NaN entry; (2) fit with evaluator / EarlyStopping / Logger / "
+        "ModelSaver callbacks sandwiched between two parameter probes (no hook may change a parameter), entries poked to 1e300 and -1e12 "
+        "(beyond any clamp) followed by sample / statistics / System / gradients / save / hooks, a NaN entry, hooks and fit again; then 9 seed "
+        "pairs (across 2**31, beyond 32 bits, negative, adjacent; one pair congruent mod 2**32 = known finding) and "
+        "reseed-restarts-the-stream; then random histories (at least 6 whatever the clock says; the time budget only cuts this stream): "
+        "state kind in {positive, complex, density} x nv 2..4 x nh 1..4 (x na 1..3), "
         "seed from every regime with set_random_seed flag combinations, then 4..12 operations drawn from a weighted grammar (reseed, "
-        "reinitialize, poke [NaN, +-inf, |w|>50, 1e6], sample, observable sample/statistics/statistics_from_samples, System, fit [epochs 1..2, "
+        "reinitialize, poke [NaN, +-inf, |w|>50, 1e6, +-1e300, 1e12], callback hooks as read-only operations, sample, observable sample/statistics/statistics_from_samples, System, fit [epochs 1..2, "
         "batch sizes, k, lr, bases, SGD/Adam/momentum, scheduler, time in {False, True, numbers}, evaluator / ModelSaver / EarlyStopping / Logger "
         "/ Lambda callbacks], probability/psi/rho/normalization/RBM-level calls, fidelity/KL/NLL, rotations incl. explicit psi=/rho=, "
         "save/load/autoload, gradients, data loaders); each history is run twice with numpy / random / environment / wall clock perturbed "
-        "(the second run's clock is far ahead and jumps at every reading), once with another seed, and a subset a third time in a fresh "
+        "(the second run's clock is far ahead and jumps at every reading; HOME / XDG_CONFIG_HOME point to different empty directories), "
+        "once with another seed, and a subset a third time in a fresh "
         "interpreter with another PYTHONHASHSEED; a history is non-trivial if it draws from the torch generator after seeding "
         "(sample / statistics / fit) and contains a read-only operation whose parameter bytes are compared")
 ASSUMPTIONS = [
     "effect table regenerated from the Python sources by harness/translate_effects.py (name-based, conservative call resolution); "
     "callables supplied by the user (optimizer / scheduler classes, metric functions, LambdaCallback functions, logger_fn, metadata "
     "callables) are outside the translated program",
-    "ClockTimer (time.* in callbacks/timer.py) is allowed: the Timer only stores and prints elapsed time",
+    "ClockTimer (time.* in callbacks/timer.py) is allowed: the Timer only stores and prints elapsed time (data AND control dependence "
+    "on a clock value are followed through the Timer's names and attributes, across its methods)",
+    "a file whose location is fixed in the source or taken from the process environment (Path.home(), ~, cwd, /etc/...) is a foreign "
+    "source (Environ); files named by the caller (load / autoload / data loaders / log=) are inputs. A failing input for such a read "
+    "cannot be produced dynamically (the harness cannot know which file name and which content the code would react to): it is reported "
+    "by the regenerated effect graph (proof break, `no-failing-input-found`) and by the recorded Path.home / expanduser / getcwd hits",
     "BLAS / OpenMP thread count fixed (OMP_NUM_THREADS=1, torch.set_num_threads(1)); nondeterminism across thread counts is not covered",
     "set_random_seed overwrites the state of torch's CPU generator (hypothesis of C14_seeded_histories_are_reproducible; exercised dynamically)",
     "TRUST: the theorems of props/C14.v are about the generated effect graph; the semantic corollaries are conditional on bodies_ok "
@@ -937,8 +952,12 @@ class Runner:
         pre, post = [], []
         hooks = ("on_train_start", "on_epoch_start", "on_batch_start", "on_batch_end", "on_epoch_end", "on_train_end")
 
-        def probe(store, hook):
-            return lambda s_, *a: store.append((hook, param_bytes(s_)))
+        def probe(store, hook):        # LambdaCallback checks the arity of every function it is given
+            if hook in ("on_train_start", "on_train_end"):
+                return lambda s_: store.append((hook, param_bytes(s_)))
+            if hook in ("on_epoch_start", "on_epoch_end"):
+                return lambda s_, ep: store.append((hook, param_bytes(s_)))
+            return lambda s_, ep, b: store.append((hook, param_bytes(s_)))
         cbs = [LambdaCallback(**{h_: probe(pre, h_) for h_ in hooks})] + cbs + [LambdaCallback(**{h_: probe(post, h_) for h_ in hooks})]
         kw["callbacks"] = cbs
         import io, contextlib
@@ -1190,11 +1209,11 @@ def fixed_histories():
         out.append({"kind": kind, "nv": 3, "nh": 2, "na": 2, "seed": 2 ** 31 + 77, "seed_flags": {"cpu": True, "gpu": True},
                     "ops": [fit, smp, hook("metric"), hook("list", 2), pk[0], smp, stat, ev, {"op": "save", "metadata": True}, grad,
                             pk[1], {"op": "save", "metadata": False}, ev, smp, stat, met, hook("metric"), hook("early", 2), rot]})
-        # history 2: huge entries (beyond any clamp), then sampling / statistics / hooks / gradients; training with the
-        # evaluator, stopper, logger and saver callbacks sandwiched between parameter probes, before and after a NaN entry
+        # history 2: training with the evaluator, stopper, logger and saver callbacks sandwiched between parameter probes; huge
+        # entries (beyond any clamp), then sampling / statistics / hooks / gradients; a NaN entry, hooks and training again
         out.append({"kind": kind, "nv": 3, "nh": 2, "na": 2, "seed": 977 + j, "seed_flags": {},
-                    "ops": [pk[2], smp, stat, hook("observable"), pk[3], smp, sysst, grad, {"op": "save", "metadata": True}, ev,
-                            hook("saver"), hook("logger"), fit_cb, smp, pk[1], hook("list"), fit_cb, met]})
+                    "ops": [fit_cb, pk[2], smp, stat, hook("observable"), pk[3], smp, sysst, grad, {"op": "save", "metadata": True}, ev,
+                            hook("saver"), hook("logger"), smp, pk[1], hook("list"), fit_cb, met]})
     return out
 
 
